@@ -520,3 +520,55 @@ example : TF.Gen.Poly.eq (FieldOps.ofField ℚ) [1, 2] [1, 2, 0] = some true := 
 
 end transfer
 end TF.C17
+
+/-! ### regenerated ring operations, evaluation, truncation (BT6, continued) -/
+namespace TF.C17
+open TF TF.Model.Poly
+
+/-- regenerated `+`, `-` (`zip_longest` + `match`), unary `-` (`scalar_mul_mut(-ONE)`), `+=` = hand models -/
+theorem gen_ring_ops_eq_model {α : Type} (F : FieldOps α) (a b : List α) :
+    TF.Gen.Poly.add F a b = add F a b ∧ TF.Gen.Poly.sub F a b = sub F a b ∧ TF.Gen.Poly.neg F a = neg F a ∧
+    TF.Gen.Poly.add_assign F a b = some (addAssign F a b) :=
+  ⟨TF.GenBridge.Poly.add_eq F a b, TF.GenBridge.Poly.sub_eq F a b, rfl, TF.GenBridge.Poly.add_assign_eq F a b⟩
+example : TF.Gen.Poly.add bfieldOps [1, 2] [1, 1, 1] = [2, 3, 1] ∧ TF.Gen.Poly.sub bfieldOps [1] [1, 1] = [0, 18446744069414584320] ∧
+    TF.Gen.Poly.add_assign bfieldOps [1, 2] [1, 1, 1] = some [2, 3, 1] := by decide
+
+/-- regenerated `evaluate` (Horner loop, any indeterminate / result type), `formal_derivative` = hand models -/
+theorem gen_evaluate_eq_model {α ι ε : Type} (F : FieldOps α) (zeroE : ε) (mulX : ε → ι → ε) (addC : ε → α → ε)
+    (p : List α) (x : ι) :
+    TF.Gen.Poly.evaluate F zeroE mulX addC p x = evaluateG zeroE mulX addC p x ∧
+    TF.Gen.Poly.formal_derivative F p = formalDerivative F p :=
+  ⟨TF.GenBridge.Poly.evaluate_eq F zeroE mulX addC p x, TF.GenBridge.Poly.formal_derivative_eq F p⟩
+example : TF.Gen.Poly.evaluate bfieldOps 0 bfieldOps.mul bfieldOps.add [1, 2, 3] 2 = 17 ∧
+    TF.Gen.Poly.formal_derivative bfieldOps [1, 2, 3] = [2, 6] := by decide
+
+/-- regenerated `truncate` reads `coefficients()` (not the raw storage) and saturates `k + 1` in `usize`: it is the hand
+    model `truncateUsize` for every `k`; regenerated `mod_x_to_the_n` and `reverse` = hand models -/
+theorem gen_truncate_eq_model {α : Type} (F : FieldOps α) (p : List α) (k : Nat) :
+    TF.Gen.Poly.truncate F p k = some (truncateUsize F p k) ∧ TF.Gen.Poly.mod_x_to_the_n F p k = some (modXToTheN p k) ∧
+    TF.Gen.Poly.reverse F p = some (Model.Poly.reverse F p) :=
+  ⟨by rw [TF.GenBridge.Poly.truncate_eq]; simp [truncateUsize, USIZE_MOD, List.take_reverse],
+    TF.GenBridge.Poly.mod_x_to_the_n_eq F p k, TF.GenBridge.Poly.reverse_eq F p⟩
+example : TF.Gen.Poly.truncate bfieldOps [0, 1, 2, 3, 4, 0, 0] 1 = some [3, 4] := by decide
+
+section transfer2
+variable {K : Type} [Field K] (root : Nat → Option K)
+local notation "FK" => FieldOps.ofField K root
+open Classical Polynomial
+
+/-- **`truncate_usize_respects_denote`, `evaluate_respects_denote`, `add_assign_spec`, `formal_derivative_spec` for the
+    regenerated code**: on two storages of the same polynomial regenerated `truncate` and `evaluate` return the same value -/
+theorem gen_value_semantics_transfer {a a' : List K} (h : denote a = denote a') (b : List K) (k : Nat) (x : K) :
+    TF.Gen.Poly.truncate FK a k = TF.Gen.Poly.truncate FK a' k ∧
+    TF.Gen.Poly.evaluate FK (FK).zero (FK).mul (FK).add a x = TF.Gen.Poly.evaluate FK (FK).zero (FK).mul (FK).add a' x ∧
+    (∃ r, TF.Gen.Poly.add_assign FK a b = some r ∧ denote r = denote a + denote b) ∧
+    denote (TF.Gen.Poly.formal_derivative FK a) = derivative (denote a) := by
+  refine ⟨?_, ?_, ⟨_, (gen_ring_ops_eq_model FK a b).2.2.2, add_assign_spec root a b⟩, ?_⟩
+  · rw [(gen_truncate_eq_model FK a k).1, (gen_truncate_eq_model FK a' k).1, (truncate_usize_respects_denote root h k).1]
+  · rw [(gen_evaluate_eq_model FK _ _ _ a x).1, (gen_evaluate_eq_model FK _ _ _ a' x).1]
+    exact evaluate_respects_denote root h x
+  · rw [(gen_evaluate_eq_model FK (FK).zero (FK).mul (FK).add a x).2]; exact formal_derivative_spec root a
+example : denote ([1, 2, 0, 0] : List ℚ) = denote [1, 2] := by simp
+
+end transfer2
+end TF.C17
